@@ -60,7 +60,7 @@ def make_harness(cfg, tw):
     only_protos = cfg.get("only_protos", False)
     resub = cfg.get("resub", False)   # queries are copies of training samples (C04)
     N = n + nu + nq
-    ids = cfg.get("ids")      # supervised only: position i stands for row ids[i] of a larger table (Node.idx != position)
+    ids = cfg.get("ids")      # position i stands for row ids[i] of the table (Node.idx != position); unlabeled positions keep their own row
     sup = tw.mod("opfython.models.supervised")
     semi_mod = tw.mod("opfython.models.semi_supervised")
     core_mod = tw.mod("opfython.core")
